@@ -92,9 +92,13 @@ NoGroup == [ mls      |-> "none",    \* "none" | "ok" | "evicted"
 
 SecretAt(gs, n) == LET hits == {i \in DOMAIN gs.secrets : gs.secrets[i].epoch = n}
                    IN  IF hits = {} THEN <<"absent">> ELSE <<"chain", gs.secrets[CHOOSE i \in hits : TRUE].chain>>
+\* exporter_secret(): the secret of the current epoch is derived from the MLS group; a stored one that stems from another
+\* branch held earlier under the same epoch number is replaced (before the fix -- deviation StaleSecretTrusted, which TLC
+\* found as a violation of SecretsMatch -- a stored entry was trusted)
 PutSecret(gs, n, ch) == IF SecretAt(gs, n)[1] = "absent"
                         THEN [gs EXCEPT !.secrets = Append(@, [epoch |-> n, chain |-> ch])]
-                        ELSE gs
+                        ELSE IF SecretAt(gs, n)[2] = ch \/ "StaleSecretTrusted" \in Dev THEN gs
+                        ELSE [gs EXCEPT !.secrets = Append(SelectSeq(@, LAMBDA x : x.epoch # n), [epoch |-> n, chain |-> ch])]
 
 \* what a snapshot copies (everything group-scoped except the snapshots themselves)
 SnapOf(gs) == [mls |-> gs.mls, chain |-> gs.chain, pend |-> gs.pend, props |-> gs.props,
@@ -1059,7 +1063,9 @@ C20_Bounded == \A c \in Clients, g \in Groups :
 \* --- internal sanity: a stored secret for an epoch belongs to the chain the client is/was on ---
 SecretsMatch == \A c \in Clients, g \in Groups :
                   cl[c][g].mls = "ok" =>
-                    LET s == SecretAt(cl[c][g], EpochOf(g, cl[c][g].chain)) IN
-                    s[1] = "absent" \/ s[2] = cl[c][g].chain
+                    \* the secret exporter_secret() would hand out NOW for the current epoch is the one of the chain the client is on
+                    LET n == EpochOf(g, cl[c][g].chain)
+                        s == SecretAt(PutSecret(cl[c][g], n, cl[c][g].chain), n) IN
+                    s = <<"chain", cl[c][g].chain>>
 
 =============================================================================
